@@ -111,7 +111,8 @@ class C08:
             "codes, diagnostics (file, line, count), callback invocations and trees (sacrificial options ignored) for every remaining parse and "
             "every probe. In addition eight directed texts in which a function callback parses into the other live context (or creates, uses and frees a context of its own) while the outer parse is "
             "inside an included file / a section: outer result, diagnostics and tree must equal those of the twin text with a plain "
-            "function in that place. Non-trivial = history with >= 1 aborting parse; distinct = distinct histories" % (len(EVENTS), len(PROBES)))
+            "function in that place; and five directed pairs of texts with a directory added to the search path in between (the later text's includes are found there "
+            "whatever sections the earlier text entered). Non-trivial = history with >= 1 aborting parse; distinct = distinct histories" % (len(EVENTS), len(PROBES)))
     assumptions = ["aborting texts only mention sacrificial options (an aborted parse may leave earlier items applied)",
                    "each run is a fresh child process of the fork server (the scanner has never run in it)"]
 
@@ -282,9 +283,57 @@ class C08:
             fail = Failure("left-behind/nested-parse", "at the end include depth %d, open streams %d, live blocks %d" % (t1[ia]["incptr"], t1[ia]["streams"], t1[ia]["live"]))
         return Outcome(classes=cl, nontrivial=True, failure=fail, sample=sample)
 
+    # a directory added to the search path between two parses: the later parse finds its includes there, whatever
+    # sections the earlier parse entered -----------------------------------------------------------------------------
+    LATE = [
+        ("single { }\n", "single { include(\"c08_late.conf\") }\n"),
+        ("single { x = 3 }\nsec t { }\n", "sec t { include(\"c08_late.conf\") }\nsingle { include(\"c08_late.conf\") }\n"),
+        ("a = 2\n", "include(\"c08_late.conf\")\nsingle { include(\"c08_late.conf\") }\n"),
+        ("single { x = 1 }\nsingle { x = 2 }\n", "single { x = 4 include(\"c08_late.conf\") }\n"),
+        ("single { zz_error\n", "single { include(\"c08_late.conf\") }\n"),
+    ]
+
+    def check_late(self, case, get_ex):
+        first, second = self.LATE[case["late"]]
+        schema = [o for o in SCHEMA if o["n"] != "single"] + [o_sec("single", [o_int("x", 7), o_func("include", "include")])]
+        schema = [dict(o, sub=o["sub"] + [o_func("include", "include")]) if o["n"] == "sec" else o for o in schema]
+        base = os.path.join(fixture_dir(), "c08l")
+        res = []
+        for with_first in (True, False):
+            s = Script()
+            emit_schema(s, 0, schema)
+            for d in ("", "early", "late"):
+                s.add("mkdir", hx(os.path.join(base, d)))
+            s.add("mkfile", hx(os.path.join(base, "late", "c08_late.conf")), hx("x = 42\n"))
+            s.add("cwd", hx(base))
+            s.add("init", 1, 0, 0)
+            s.add("searchpath", 1, hx(os.path.join(base, "early")))
+            if with_first:
+                s.add("parse_buf", 1, hx(first))
+            s.add("searchpath", 1, hx(os.path.join(base, "late")))
+            ip = s.add("parse_buf", 1, hx(second))
+            idd = s.add("dump", 1)
+            s.add("free", 1)
+            r = get_ex("asan", 10).run(s)
+            res.append((r, by_index(r.trace), ip, idd))
+        (r1, t1, ip, idd), (r2, t2, jp, jdd) = res
+        cl = ["late-search-path"]
+        sample = {"first": first, "second": second}
+        if not r2.clean or not r1.clean:
+            d = r2 if not r2.clean else r1
+            return Outcome(failure=Failure("die/%s/late-search-path" % d.death(), d.stderr.decode("latin-1")[:1200]), classes=cl, nontrivial=True, sample=sample)
+        fail = None
+        a, b = t1[ip], t2[jp]
+        if a["rc"] != b["rc"] or [(f, l) for f, l, m in unhex_diag(a)] != [(f, l) for f, l, m in unhex_diag(b)]:
+            fail = Failure("late-search-path/rc-or-diagnostics-differ", "after %r and a directory added to the search path, %r gives rc %d %r; in a context that did not parse the first text: rc %d %r" % (
+                first, second, a["rc"], unhex_diag(a), b["rc"], unhex_diag(b)))
+        return Outcome(classes=cl, nontrivial=True, failure=fail, sample=sample)
+
     def check_case(self, case, get_ex):
         if "nested" in case:
             return self.check_nested(case, get_ex)
+        if "late" in case:
+            return self.check_late(case, get_ex)
         events = [EVENTS[k] for k in case["history"]]
         ref = [e for e in events if e[1] not in ("abort", "abort-fail", "abort-init")]
         s1, o1, a1 = self.script(events)
@@ -351,6 +400,7 @@ class C08:
             for h in itertools.product(range(len(EVENTS) if d <= 2 else CORE), repeat=d):
                 cases.append({"history": list(h)})
         r.run_cases([{"nested": k} for k in range(len(self.NESTED))], chunksize=1)
+        r.run_cases([{"late": k} for k in range(len(self.LATE))], chunksize=1)
         r.run_cases(cases, chunksize=20)
         r.exhaustive = True
         r.run_hypothesis(2500 if r.tier == "quick" else 60000)
